@@ -265,6 +265,7 @@ pub fn dispatch(cmd: &str, name: &str, arg: &str) -> Option<String> {
     if name.starts_with("loopback.") { return dispatch_loopback(cmd, name, arg); }
     if name.starts_with("skip.") { return dispatch_skipgrad(cmd, name, arg); }
     if name.starts_with("learn.") { return dispatch_schedule(cmd, name, arg); }
+    if name.starts_with("validate.") { return dispatch_validate(cmd, name, arg); }
     if !["conv", "deconv", "pool"].iter().any(|p| name.starts_with(p)) { return None; }
     std::panic::set_hook(Box::new(|_| {}));
     if cmd == "run" {
@@ -580,6 +581,75 @@ pub fn dispatch_schedule(cmd: &str, name: &str, arg: &str) -> Option<String> {
     for n in 1..=5usize { for b in 1..=6usize { for e in 1..=3i32 { for seed in 0..2u64 {
         tried += 1;
         if let Err(err) = one(n, b, e, seed) { return Some(format!("{{\"failed\":true,\"tried\":{},\"input\":{},\"detail\":{:?}}}", tried, fmt(n, b, e, seed), err)); }
+    }}}}
+    Some(format!("{{\"failed\":false,\"tried\":{}}}", tried))
+}
+
+// ------------------------------------------------------------------------------------------------ validate / predict_batch (C12)
+/// validate() against the statement of C12 executed with the crate's own predict / objective (sequential sums in input order)
+pub fn validate_one(n: usize, softmax: bool, outs: usize, seed: u64) -> Result<(), String> {
+    let mut rng = Lcg(seed.wrapping_mul(40503).wrapping_add(n as u64));
+    let mut net = crate::network::Network::new(Shape::Single(2));
+    net.dense(outs, if softmax { Activation::Softmax } else { Activation::Linear }, true, None);
+    net.set_objective(if softmax { crate::objective::Objective::CrossEntropy } else { crate::objective::Objective::MSE }, None);
+    for layer in net.layers.iter_mut() {
+        if let crate::network::Layer::Dense(l) = layer {
+            l.weights = Tensor::double((0..outs).map(|_| vec![rng.int(-1, 1) * 0.25, rng.int(-1, 1) * 0.25]).collect());
+            l.bias = Some(Tensor::single((0..outs).map(|_| rng.int(-1, 1) * 0.25).collect()));
+        }
+    }
+    let xs: Vec<Tensor> = (0..n).map(|_| Tensor::single(vec![rng.int(-2, 2), rng.int(-2, 2)])).collect();
+    let ys: Vec<Tensor> = (0..n).map(|_| {
+        if softmax { let hot = (rng.next() % outs as u64) as usize; Tensor::single((0..outs).map(|j| if j == hot { 1.0 } else { 0.0 }).collect()) }
+        else { Tensor::single((0..outs).map(|_| rng.int(-2, 2) * 0.25).collect()) }
+    }).collect();
+    let xr: Vec<&Tensor> = xs.iter().collect();
+    let yr: Vec<&Tensor> = ys.iter().collect();
+    let tol = 0.3f32;
+    let (got_loss, got_acc) = net.validate(&xr, &yr, tol);
+    let mut losses: Vec<f32> = Vec::new();
+    let mut accs: Vec<f32> = Vec::new();
+    for g in 0..n {
+        let p = net.predict(&xs[g]);
+        let (l, _) = net.objective.loss(&p, &ys[g]);
+        losses.push(l);
+        let a = if softmax { if ys[g].argmax() == p.argmax() { 1.0 } else { 0.0 } } else {
+            let t = ys[g].get_flat(); let q = p.get_flat();
+            let mut hit = 0.0f32;
+            for j in 0..t.len() { if (t[j] - q[j]).abs() < tol { hit += 1.0; } }
+            hit / t.len() as f32
+        };
+        accs.push(a);
+    }
+    let want_loss = losses.iter().sum::<f32>() / n as f32;
+    let want_acc = accs.iter().sum::<f32>() / n as f32;
+    if got_loss.to_bits() != want_loss.to_bits() { return Err(format!("validate loss {} is not the mean over the samples {}", got_loss, want_loss)); }
+    if got_acc.to_bits() != want_acc.to_bits() { return Err(format!("validate accuracy {} is not the mean over the samples {}", got_acc, want_acc)); }
+    let batch = net.predict_batch(&xr);
+    if batch.len() != n { return Err(format!("predict_batch returned {} predictions for {} inputs", batch.len(), n)); }
+    for g in 0..n { if bits(&batch[g]) != bits(&net.predict(&xs[g])) { return Err(format!("predict_batch[{}] is not predict of input {}", g, g)); } }
+    Ok(())
+}
+pub fn dispatch_validate(cmd: &str, name: &str, arg: &str) -> Option<String> {
+    if name != "validate.mean" { return None; }
+    if std::env::var("VERIF_SHOW_PANIC").is_err() { std::panic::set_hook(Box::new(|_| {})); }
+    let fmt = |n: usize, sm: bool, outs: usize, seed: u64| format!("{{\"samples\":{},\"softmax\":{},\"outputs\":{},\"seed\":{}}}", n, sm as usize, outs, seed);
+    let one = |n: usize, sm: bool, outs: usize, seed: u64| -> Result<(), String> {
+        match std::panic::catch_unwind(move || validate_one(n, sm, outs, seed)) { Ok(r) => r, Err(_) => Err("validate() / predict_batch() panicked".into()) }
+    };
+    if cmd == "run" {
+        let v: Vec<u64> = arg.split(|c: char| !c.is_ascii_digit()).filter(|x| !x.is_empty()).filter_map(|x| x.parse().ok()).collect();
+        if v.len() != 4 { return None; }
+        return Some(match one(v[0] as usize, v[1] != 0, v[2] as usize, v[3]) {
+            Ok(()) => format!("{{\"failed\":false,\"input\":{}}}", fmt(v[0] as usize, v[1] != 0, v[2] as usize, v[3])),
+            Err(e) => format!("{{\"failed\":true,\"input\":{},\"detail\":{:?}}}", fmt(v[0] as usize, v[1] != 0, v[2] as usize, v[3]), e),
+        });
+    }
+    let mut tried = 0usize;
+    for n in [1usize, 2, 3, 63, 64, 65, 129] { for sm in [false, true] { for outs in 1..=3usize { for seed in 0..2u64 {
+        if sm && outs == 1 { continue; }
+        tried += 1;
+        if let Err(e) = one(n, sm, outs, seed) { return Some(format!("{{\"failed\":true,\"tried\":{},\"input\":{},\"detail\":{:?}}}", tried, fmt(n, sm, outs, seed), e)); }
     }}}}
     Some(format!("{{\"failed\":false,\"tried\":{}}}", tried))
 }
